@@ -2,6 +2,8 @@
   C04 — helper lemmas (no property statements here).
 -/
 import EinoV.Model.C04
+import EinoV.Expected.C04
+import EinoV.Proofs.EngineHom
 
 namespace EinoV.C04
 open EinoV.Engine
@@ -13,5 +15,79 @@ theorem bind_assoc' {ε α β γ} (x : Except ε α) (f : α → Except ε β) (
     (x >>= f >>= g) = (x >>= fun a => f a >>= g) := by cases x <;> rfl
 theorem bind_pure' {ε α} (x : Except ε α) : (x >>= fun a => pure a) = x := by cases x <;> rfl
 
+
+theorem packer_agree_expected {V} (co : ChunkOps V) (f : V → Except Err V) (chunk : V → List V)
+    (hchunk : ∀ v, concat co (chunk v) = .ok v)
+    (hasI hasS hasC hasT : Bool) (hne : (hasI || hasS || hasC || hasT) = true) :
+    let p := pack co Expected.C04.packerPref (nativeOf co f chunk hasI hasS hasC hasT)
+    (∀ x, p.i x = f x) ∧ (∀ x, (p.s x >>= concat co) = f x) ∧
+    (∀ xs, p.c xs = (concat co xs >>= f)) ∧ (∀ xs, (p.t xs >>= concat co) = (concat co xs >>= f)) := by
+  have e1 : ∀ (x : Except Err V), (x >>= fun a => concat co (chunk a)) = x := by
+    intro x; cases x <;> simp [bind, Except.bind, hchunk]
+  have e2 : ∀ (x : Except Err V), (x >>= fun a => concat co [a]) = x := by
+    intro x; cases x <;> simp [bind, Except.bind, concat]
+  have e3 : ∀ {β} (x : V) (g : V → Except Err β), (Except.ok x >>= g) = g x := fun _ _ => rfl
+  have e4 : ∀ {β} (y : Except Err V) (g : V → Except Err β) (k : β → Except Err V),
+      (y >>= fun a => g a >>= k) = (y >>= g >>= k) := by
+    intro β y g k; cases y <;> rfl
+  have e5 : ∀ (x : Except Err V), (x >>= fun a => Except.ok a) = x := by
+    intro x; cases x <;> rfl
+  cases hasI <;> cases hasS <;> cases hasC <;> cases hasT <;> simp at hne <;>
+    simp [pack, nativeOf, pickSource, Native.has, Expected.C04.packerPref, deriveI, deriveS, deriveC, deriveT,
+      concat_single, e1, e2, e3, e5] <;>
+    (try constructor) <;> intros <;> (try rw [e4, e1]) <;> (try rw [e4, e2]) <;> (try simp [e5])
+
+
+/-- total concatenation: the concatenation of a chunk list, `d` where `concat` fails -/
+def concatD {V} (co : ChunkOps V) (d : V) (l : List V) : V :=
+  match concat co l with
+  | .ok v => v
+  | .error _ => d
+
+theorem concat_eq_concatD {V} (co : ChunkOps V) (d : V)
+    (hct : ∀ l, l ≠ [] → ∃ v, concat co l = .ok v) (l : List V) (hl : l ≠ []) :
+    concat co l = .ok (concatD co d l) := by
+  obtain ⟨v, hv⟩ := hct l hl
+  simp [concatD, hv]
+
+theorem packed_t_nonempty {V} (co : ChunkOps V) (f : V → Except Err V) (chunk : V → List V)
+    (hne : ∀ v, chunk v ≠ []) (hasI hasS hasC hasT : Bool) (hany : (hasI || hasS || hasC || hasT) = true)
+    (a a' : List V)
+    (h : (pack co Expected.C04.packerPref (nativeOf co f chunk hasI hasS hasC hasT)).t a = .ok a') : a' ≠ [] := by
+  cases hasI <;> cases hasS <;> cases hasC <;> cases hasT <;> simp at hany <;>
+    simp only [pack, nativeOf, pickSource, Native.has, Expected.C04.packerPref, deriveT, Option.isSome,
+      Bool.false_eq_true, ↓reduceIte] at h <;>
+    (cases hc : concat co a with
+     | error e => simp [hc, bind, Except.bind] at h
+     | ok x =>
+       cases hf : f x with
+       | error e => simp [hc, hf, bind, Except.bind] at h
+       | ok o => simp [hc, hf, bind, Except.bind, pure, Except.pure] at h; subst h; first | exact hne o | simp)
+
+theorem map_eq_bind_concat {V} (co : ChunkOps V) (d : V)
+    (hct : ∀ l, l ≠ [] → ∃ v, concat co l = .ok v)
+    (x : Except Err (List V)) (hx : ∀ a', x = .ok a' → a' ≠ []) :
+    x.map (concatD co d) = (x >>= concat co) := by
+  cases x with
+  | error e => rfl
+  | ok a' =>
+    simp only [Except.map, bind, Except.bind]
+    rw [concat_eq_concatD co d hct a' (hx a' rfl)]
+
+/-- a packed component is a node of the stream-mode runner that corresponds, along
+    concatenation, to the same component in the value-mode runner -/
+theorem packed_component_commutes {V} (co : ChunkOps V) (d : V)
+    (hct : ∀ l, l ≠ [] → ∃ v, concat co l = .ok v)
+    (f : V → Except Err V) (chunk : V → List V)
+    (hchunk : ∀ v, concat co (chunk v) = .ok v) (hne : ∀ v, chunk v ≠ [])
+    (hasI hasS hasC hasT : Bool) (hany : (hasI || hasS || hasC || hasT) = true) (a : List V) (ha : a ≠ []) :
+    let p := pack co Expected.C04.packerPref (nativeOf co f chunk hasI hasS hasC hasT)
+    p.i (concatD co d a) = (p.t a).map (concatD co d) := by
+  intro p
+  have key := packer_agree_expected co f chunk hchunk hasI hasS hasC hasT hany
+  obtain ⟨k1, _, _, k4⟩ := key
+  rw [map_eq_bind_concat co d hct _ (fun a' h' => packed_t_nonempty co f chunk hne hasI hasS hasC hasT hany a a' h')]
+  rw [k4 a, k1, concat_eq_concatD co d hct a ha]
+  rfl
 
 end EinoV.C04
